@@ -49,7 +49,7 @@ def stuckPast (cfg : Cfg) (s : State) (i : Nat) (cell : Option Time) : Bool :=
 /-- D7: deadline 500 set, `Read` blocks, deadline cleared, deadline 300 set: at +1000 the
 caller is still blocked (original loops: `c` stays nil after `Reset`). -/
 def d7Run : List Label :=
-  [.setRD (some 500), .call 0, .thr 0 .go, .thr 0 .go,
+  [.setRD (some 500), .call 0 64, .thr 0 .go, .thr 0 .go,
    .setRD none, .thr 0 .tok, .thr 0 .go, .thr 0 .go, .thr 0 .go,
    .setRD (some 300), .thr 0 .tok, .thr 0 .go, .thr 0 .go, .thr 0 .go,
    .tick 300, .fire 0, .tick 1000]
@@ -60,7 +60,7 @@ theorem C13_D7_deadline_reset_counterexample (async : Bool) :
 
 /-- the same for `Write` (window full) -/
 def d7RunW : List Label :=
-  [.setWD (some 500), .call 0, .thr 0 .go, .thr 0 .go, .thr 0 .go,
+  [.setWD (some 500), .call 0 64, .thr 0 .go, .thr 0 .go, .thr 0 .go,
    .setWD none, .thr 0 .tok, .thr 0 .go, .thr 0 .go, .thr 0 .go, .thr 0 .go,
    .setWD (some 300), .thr 0 .tok, .thr 0 .go, .thr 0 .go, .thr 0 .go, .thr 0 .go,
    .tick 300, .fire 0, .tick 1000]
@@ -72,7 +72,7 @@ theorem C13_D7_deadline_reset_counterexample_write (async : Bool) :
 /-- D7b: `Read` blocks without a deadline, then deadline 300 is set: the wake-up does not go back
 to RESET_TIMER (no timer exists), the deadline is never loaded. -/
 def d7bRun : List Label :=
-  [.call 0, .thr 0 .go, .thr 0 .go, .tick 100,
+  [.call 0 64, .thr 0 .go, .thr 0 .go, .tick 100,
    .setRD (some 300), .thr 0 .tok, .thr 0 .go, .thr 0 .go, .tick 1000]
 
 theorem C13_D7b_late_set_counterexample (async : Bool) :
@@ -82,8 +82,8 @@ theorem C13_D7b_late_set_counterexample (async : Bool) :
 /-- D5: two readers blocked, two messages arrive in one datagram (one token): reader 0 takes one
 message and returns, reader 1 stays blocked although a message is readable, and nothing can move. -/
 def d5Run : List Label :=
-  [.call 0, .call 1, .thr 0 .go, .thr 0 .go, .thr 1 .go, .thr 1 .go, .tick 100,
-   .arrive 2, .thr 0 .tok, .thr 0 .go, .thr 0 .go]
+  [.call 0 64, .call 1 64, .thr 0 .go, .thr 0 .go, .thr 1 .go, .thr 1 .go, .tick 100,
+   .arrive [8, 8], .thr 0 .tok, .thr 0 .go, .thr 0 .go]
 
 theorem C13_D5_multireader_counterexample (async : Bool) :
     (run (cfgOrig async) (init [.read, .read] 1) d5Run).map
@@ -94,7 +94,7 @@ theorem C13_D5_multireader_counterexample (async : Bool) :
 /-- D8 (Accept): the deadline is loaded once at entry; set while blocked it is never honoured.
 This is the code as it is (also in the repaired tree): recorded finding. -/
 def d8AcceptRun : List Label :=
-  [.call 0, .thr 0 .go, .tick 100, .setLD (some 300), .tick 1000]
+  [.call 0 64, .thr 0 .go, .tick 100, .setLD (some 300), .tick 1000]
 
 theorem C13_D8_accept_deadline_counterexample (cfg : Cfg) :
     (run cfg (init [.accept] 1) d8AcceptRun).map (fun s => stuckPast cfg s 0 s.sh.ld) = some true := by
@@ -104,7 +104,7 @@ theorem C13_D8_accept_deadline_counterexample (cfg : Cfg) :
 token, reader 0 re-arms, reader 1 keeps its old timer and times out at 300 < 700.
 Holds for the repaired loops too: recorded finding. -/
 def d8MultiRun : List Label :=
-  [.setRD (some 300), .call 0, .call 1, .thr 0 .go, .thr 0 .go,
+  [.setRD (some 300), .call 0 64, .call 1 64, .thr 0 .go, .thr 0 .go,
    .thr 0 .tok, .thr 0 .go, .thr 0 .go, .thr 0 .go, .thr 1 .go, .thr 1 .go, .tick 100,
    .setRD (some 700), .thr 0 .tok, .thr 0 .go, .thr 0 .go, .thr 0 .go,
    .tick 300, .fire 1, .thr 1 .timeout]
@@ -250,14 +250,16 @@ theorem C13_close_err_wake {cfg : Cfg} {s : State} {t : Thread} (ht : t ∈ s.th
 
 /-- After Close: `Write` fails at the poll that precedes every test of the window (the only way to
 `check` is through `pre`, and with `die` closed `pre` has no `go`); `Read` still returns data that
-was received (`check` does not look at `die`) and fails once nothing is readable; a second
-`Close` reports an error. -/
+was received (`check` does not look at `die`; at most `len(b)` bytes, and what it hands out plus
+what stays — leftover in `bufptr` and queued messages — is exactly what was there) and fails once
+nothing is readable; a second `Close` reports an error. -/
 theorem C13_after_close {cfg : Cfg} {sh : Sh} {t : Thread} {ch : Choice} {r : TRes} (hd : sh.die = true) :
     (t.kind = .write → t.pc = .pre → tstep cfg sh t ch = some r →
       r.t.pc = .done ∧ (r.t.ret = some .closed ∨ r.t.ret = some .sockerr)) ∧
     (t.kind = .write → tstep cfg sh t ch = some r → r.t.pc = .check → t.pc = .pre) ∧
     (t.kind = .read → t.pc = .check → 0 < sh.readable → tstep cfg sh t .go = some r →
-      r.t.ret = some .ok ∧ r.sh.readable = sh.readable - 1) ∧
+      r.t.ret = some .ok ∧ r.t.got ≤ t.bsz ∧
+      r.t.got + r.sh.left + r.sh.queue.sum = sh.left + sh.queue.sum) ∧
     (t.kind = .read → t.pc = .check → sh.readable = 0 → tstep cfg sh t .go = some r → r.t.pc = .sel) ∧
     (∀ s : State, s.sh = sh → closeResult s = .closed ∧
       ∀ s', step cfg s .close = some s' → s'.sh.die = true ∧ closeResult s' = .closed) := by
@@ -272,11 +274,22 @@ theorem C13_after_close {cfg : Cfg} {sh : Sh} {t : Thread} {ch : Choice} {r : TR
       | (exfalso; revert hpc; (try split at hs) <;> (try obtain ⟨_, rfl⟩ := hs) <;>
           simp [Thread.finish] <;> (try split) <;> simp_all)
   · intro hk hp hpos hs
-    simp [tstep, tstepRead, hk, hp, hpos] at hs
-    subst hs; simp [Thread.finish]
+    simp only [tstep, tstepRead, hk, hp] at hs
+    split at hs
+    · rename_i rr hrr
+      cases hs
+      have hc := take_conserves hrr
+      exact ⟨rfl, hc.2, hc.1⟩
+    · rename_i hnone
+      have := take_none hnone
+      simp [Sh.readable, this.1, this.2] at hpos
   · intro hk hp hz hs
-    simp [tstep, tstepRead, hk, hp, hz] at hs
-    subst hs; rfl
+    simp only [tstep, tstepRead, hk, hp] at hs
+    split at hs
+    · rename_i rr hrr
+      have := take_some_pos hrr
+      simp only [Sh.readable] at hz; omega
+    · cases hs; rfl
   · intro s hs
     subst hs
     refine ⟨by simp [closeResult, hd], ?_⟩
@@ -360,6 +373,121 @@ theorem C13_multi_waiter {cfg : Cfg} {kinds : List Kind} {wnd infl : Nat} {s : S
     have hcs := canStep_write_tok (cfg := cfg) (sh := s'.sh) hk hp htok
     exact ⟨not_quiescent_of_canStep ht hcs, tick_none_of_canStep ht hcs⟩
 
+/-- Partial reads.  A `Read` whose buffer is smaller than the next message takes `len(b)` bytes and
+leaves the rest in `bufptr`; that rest is readable for the next reader, and the chain wake — which
+runs *after* `bufptr` has been updated — passes the token on (the seeded change C13-2 moved it
+before the update). -/
+theorem C13_partial_read_chains {cfg : Cfg} {sh : Sh} {t : Thread} {r : TRes} {m : Nat} {q : List Nat}
+    (hchain : cfg.chain = true) (hk : t.kind = .read) (hp : t.pc = .check)
+    (hl : sh.left = 0) (hq : sh.queue = m :: q) (hb : t.bsz < m) (hs : tstep cfg sh t .go = some r) :
+    r.t.ret = some .ok ∧ r.t.got = t.bsz ∧ r.sh.left = m - t.bsz ∧ r.sh.queue = q ∧ r.sh.rtok = true := by
+  have hnb : ¬ m ≤ t.bsz := by omega
+  have hpos : 0 < m - t.bsz := by omega
+  simp only [tstep, tstepRead, hk, hp, take, hl, hq, Nat.lt_irrefl, if_false, hnb] at hs
+  cases hs
+  simp [Thread.finish, hchain, more, hpos]
+
+/-- … and with leftover bytes alone (`len(bufptr) > 0`, no message queued) no reader stays asleep:
+`DataInv` counts the leftover as readable (any number of readers, chain wake in place). -/
+theorem C13_multi_waiter_partial {cfg : Cfg} {kinds : List Kind} {wnd infl : Nat} {s : State}
+    (hchain : cfg.chain = true) (h : Reach cfg (init kinds wnd infl) s) (hleft : 0 < s.sh.left) :
+    (s.sh.rtok = true ∨ ∃ (j : Nat) (t : Thread), s.ths[j]? = some t ∧ t.aboutToCheck) ∧
+    ∀ t ∈ s.ths, t.kind = .read → t.pc = .sel → quiescent cfg s = false ∧ ∀ t', step cfg s (.tick t') = none :=
+  (C13_multi_waiter hchain h).1 (by simp only [Sh.readable]; omega)
+
+/-! ## C13: liveness on the LTS — every blocked call whose condition becomes true returns -/
+
+/-- Between two environment events / ticks only thread steps and timer expiries happen (maximal
+progress).  Such a phase is finite: at most `measure s` steps from `s` (a return lowers the number of
+active callers and issues at most one chain token, taking a token lowers the number of tokens, every
+other step lowers the caller's rank) — so a quiescent state is always reached; nobody spins. -/
+theorem C13_progress_terminates {cfg : Cfg} {s s' : State} (ls : List Label)
+    (hall : ∀ l ∈ ls, l.isProgress = true) (hr : run cfg s ls = some s') :
+    ls.length + measure s' ≤ measure s ∧ ls.length ≤ measure s := by
+  have := run_measure ls hall hr
+  exact ⟨this, by omega⟩
+
+/-- Time is never stuck either: in a quiescent state a `tick` to any later instant up to the next
+timer expiry is enabled (and no further, `tick_spec`), at which instant the expiry is enabled. -/
+theorem C13_time_advances {cfg : Cfg} {s : State} {t' : Time} (hq : quiescent cfg s = true) (hlt : s.sh.now < t')
+    (harm : ∀ t ∈ s.ths, ∀ w, t.armed = some w → t' ≤ w) : (step cfg s (.tick t')).isSome = true := by
+  rw [tick_enabled hq hlt harm]; rfl
+
+/-- `blocked_call_returns` — repaired loops, any number of callers of every kind.  In the quiescent
+state that ends a phase (it exists: `C13_progress_terminates`) every caller is idle, has returned, or
+is blocked in its `select`, and a caller that is still blocked has **none** of its wake-up conditions:
+* Read: nothing readable (leftover bytes included; chain wake), session open, no socket error;
+* Write: session open, no socket error, and — one writer — the window is full;
+* Accept: empty backlog, listener open, no socket error;
+* the deadline it loaded lies strictly in the future; for one reader / one writer so does the deadline
+  in force (the cell).
+Contrapositive = liveness: once data has arrived (enough of it: one `Read` per message or leftover),
+the window has opened, the deadline (finite) has been reached — time advances up to it and not
+beyond, `C13_time_advances`, `C13_deadline_exact_1` —, Close or a socket error has happened, the
+call has returned when the phase ends, i.e. within the same virtual instant, after finitely many steps.
+Not covered (recorded finding D8): a deadline changed while ≥ 2 callers are blocked, or while
+Accept is blocked, is honoured only as the *loaded* value. -/
+theorem C13_blocked_call_returns {cfg : Cfg} {kinds : List Kind} {wnd infl : Nat} {s : State} {t : Thread}
+    (hc : cfg.repoint = true) (hr : cfg.rearm = true) (hchain : cfg.chain = true)
+    (h : Reach cfg (init kinds wnd infl) s) (hq : quiescent cfg s = true) (ht : t ∈ s.ths) :
+    (t.pc = .idle ∨ t.pc = .done ∨ t.pc = .sel) ∧
+    (t.pc = .sel →
+      (t.kind = .read → s.sh.readable = 0 ∧ s.sh.die = false ∧ s.sh.rerr = false) ∧
+      (t.kind = .write → s.sh.die = false ∧ s.sh.werr = false ∧ (SingleK .write kinds → s.sh.wnd ≤ s.sh.inflight)) ∧
+      (t.kind = .accept → s.sh.backlog = 0 ∧ s.sh.ldie = false ∧ s.sh.lerr = false) ∧
+      (∀ d, t.seen = some d → s.sh.now < d) ∧
+      (t.kind = .read → SingleK .read kinds → ∀ d, s.sh.rd = some d → s.sh.now < d) ∧
+      (t.kind = .write → SingleK .write kinds → ∀ d, s.sh.wd = some d → s.sh.now < d)) := by
+  have hns := not_canStep_of_quiescent hq ht
+  refine ⟨quiescent_pcs hq ht (reach_pcOK h t ht), ?_⟩
+  intro hp
+  obtain ⟨i, hi⟩ := List.getElem?_of_mem ht
+  have no : ∀ {ch : Choice}, (tstep cfg s.sh t ch).isSome = true → False := by
+    intro ch hch
+    have := canStep_of_choice ch hch
+    simp [hns] at this
+  have bfalse : ∀ {b : Bool}, (b = true → False) → b = false := by
+    intro b hb; cases b <;> simp_all
+  refine ⟨?_, ?_, ?_, ?_, ?_, ?_⟩
+  · intro hk
+    refine ⟨?_, bfalse fun hd => no (ch := .die) (by simp [tstep, tstepRead, hk, hp, hd]),
+      bfalse fun hd => no (ch := .err) (by simp [tstep, tstepRead, hk, hp, hd])⟩
+    rcases Nat.eq_zero_or_pos s.sh.readable with h0 | hpos
+    · exact h0
+    · have := ((C13_multi_waiter hchain h).1 hpos).2 t ht hk hp
+      simp [hq] at this
+  · intro hk
+    refine ⟨bfalse fun hd => no (ch := .die) (by simp [tstep, tstepWrite, hk, hp, hd]),
+      bfalse fun hd => no (ch := .err) (by simp [tstep, tstepWrite, hk, hp, hd]), ?_⟩
+    intro hs
+    rcases Nat.lt_or_ge s.sh.inflight s.sh.wnd with hroom | hfull
+    · have := ((C13_no_lost_wakeup_1 (cfg := cfg) h hi hp).2 hk hs hroom).2.1
+      simp [hns] at this
+    · exact hfull
+  · intro hk
+    refine ⟨?_, bfalse fun hd => no (ch := .die) (by simp [tstep, tstepAccept, hk, hp, hd]),
+      bfalse fun hd => no (ch := .err) (by simp [tstep, tstepAccept, hk, hp, hd])⟩
+    rcases Nat.eq_zero_or_pos s.sh.backlog with h0 | hpos
+    · exact h0
+    · exact (no (ch := .tok) (by simp [tstep, tstepAccept, hk, hp, hpos])).elim
+  · intro d hd
+    rcases Nat.lt_or_ge s.sh.now d with hlt | hge
+    · exact hlt
+    · have := canStep_deadline_passed (cfg := cfg) (reach_timerInv hc hr h t ht) hp hd hge
+      simp [hns] at this
+  · intro hk hs d hd
+    rcases Nat.lt_or_ge s.sh.now d with hlt | hge
+    · exact hlt
+    · have := (C13_deadline_exact_1 (cell := s.sh.rd) (tok := s.sh.rtok) hc hr h hi hp
+        (Or.inl ⟨hk, hs, rfl, rfl⟩)).2.1 d hd hge
+      simp [hns] at this
+  · intro hk hs d hd
+    rcases Nat.lt_or_ge s.sh.now d with hlt | hge
+    · exact hlt
+    · have := (C13_deadline_exact_1 (cell := s.sh.wd) (tok := s.sh.wtok) hc hr h hi hp
+        (Or.inr ⟨hk, hs, rfl, rfl⟩)).2.1 d hd hge
+      simp [hns] at this
+
 /-! ## non-vacuity and the repaired loops on the defect schedules -/
 
 /-- possible outcomes (return, virtual time) of caller `i` under maximal progress, for a schedule of
@@ -375,25 +503,39 @@ def outcomes (cfg : Cfg) (s0 : State) (evs : List (Time × Label)) (endAt : Time
 /-- D7 schedule (set 500, call, clear at 100, set 300 at 200): the original loops never return, the
 repaired loops time out at exactly 300 -/
 example : outcomes (cfgOrig false) (init [.read] 1)
-    [(0, .setRD (some 500)), (0, .call 0), (100, .setRD none), (200, .setRD (some 300))] 1000 0 = [none] := by decide
+    [(0, .setRD (some 500)), (0, .call 0 64), (100, .setRD none), (200, .setRD (some 300))] 1000 0 = [none] := by decide
 example : outcomes (cfgFixed false) (init [.read] 1)
-    [(0, .setRD (some 500)), (0, .call 0), (100, .setRD none), (200, .setRD (some 300))] 1000 0
+    [(0, .setRD (some 500)), (0, .call 0 64), (100, .setRD none), (200, .setRD (some 300))] 1000 0
       = [some (.timeout, 300)] := by decide
 /-- D7b schedule (call, set 300 at 100) -/
-example : outcomes (cfgOrig false) (init [.write] 1 1) [(0, .call 0), (100, .setWD (some 300))] 1000 0 = [none] := by decide
-example : outcomes (cfgFixed false) (init [.write] 1 1) [(0, .call 0), (100, .setWD (some 300))] 1000 0
+example : outcomes (cfgOrig false) (init [.write] 1 1) [(0, .call 0 64), (100, .setWD (some 300))] 1000 0 = [none] := by decide
+example : outcomes (cfgFixed false) (init [.write] 1 1) [(0, .call 0 64), (100, .setWD (some 300))] 1000 0
     = [some (.timeout, 300)] := by decide
 /-- D5 schedule: both readers return at 100 with the chain wake -/
-example : outcomes (cfgFixed false) (init [.read, .read] 1) [(0, .call 0), (0, .call 1), (100, .arrive 2)] 1000 1
+example : outcomes (cfgFixed false) (init [.read, .read] 1) [(0, .call 0 64), (0, .call 1 64), (100, .arrive [8, 8])] 1000 1
     = [some (.ok, 100)] := by decide
-example : (outcomes (cfgOrig false) (init [.read, .read] 1) [(0, .call 0), (0, .call 1), (100, .arrive 2)] 1000 1).contains none
+example : (outcomes (cfgOrig false) (init [.read, .read] 1) [(0, .call 0 64), (0, .call 1 64), (100, .arrive [8, 8])] 1000 1).contains none
     = true := by decide
+/-- partial reads (the demo of seeded change C13-2): two readers with 100-byte buffers, one message of
+200 bytes, no further traffic: both return at +100 (100 bytes each, see `C13_partial_read_chains`);
+without the chain wake the second one sleeps on 100 readable bytes -/
+example : outcomes (cfgFixed false) (init [.read, .read] 1) [(0, .call 0 100), (0, .call 1 100), (100, .arrive [200])] 1000 1
+    = [some (.ok, 100)] := by decide
+example : (outcomes (cfgOrig false) (init [.read, .read] 1) [(0, .call 0 100), (0, .call 1 100), (100, .arrive [200])] 1000 1).contains none
+    = true := by decide
+/-- a reachable state with leftover bytes only (hypothesis of `C13_multi_waiter_partial`) -/
+example : (run (cfgFixed false) (init [.read] 1)
+    [.arrive [8], .call 0 3, .thr 0 .go, .thr 0 .go]).map (fun s => (s.sh.left, s.sh.queue, s.ths.map (·.got)))
+    = some (5, [], [3]) := by decide
+/-- the termination measure of a state with two fresh calls (2 × (27 + rank 8)); hypotheses of
+`C13_blocked_call_returns` are met by the quiescent blocked state of the last example below -/
+example : (run (cfgFixed false) (init [.read, .read] 1) [.call 0 64, .call 1 64]).map measure = some 70 := by decide
 /-- set→past: returns at the instant of the change -/
 example : outcomes (cfgFixed true) (init [.read] 1)
-    [(0, .setRD (some 700)), (0, .call 0), (200, .setRD (some 100))] 1000 0 = [some (.timeout, 200)] := by decide
+    [(0, .setRD (some 700)), (0, .call 0 64), (200, .setRD (some 100))] 1000 0 = [some (.timeout, 200)] := by decide
 /-- Close wakes a reader, a writer (window full) and, on the listener, an accepter -/
 example : outcomes (cfgFixed false) (init [.read, .write, .accept] 1 1)
-    [(0, .call 0), (0, .call 1), (0, .call 2), (50, .close)] 1000 1 = [some (.closed, 50)] := by decide
+    [(0, .call 0 64), (0, .call 1 64), (0, .call 2 64), (50, .close)] 1000 1 = [some (.closed, 50)] := by decide
 /-- every state produced by `run` is reachable -/
 theorem C13_reach_of_run {cfg : Cfg} {s0 s s' : State} (ls : List Label) (h : Reach cfg s0 s)
     (hr : run cfg s ls = some s') : Reach cfg s0 s' := by
@@ -408,8 +550,8 @@ theorem C13_reach_of_run {cfg : Cfg} {s0 s s' : State} (ls : List Label) (h : Re
 /-- a reachable state in which the hypotheses of `C13_deadline_exact_1` hold: the only reader is
 blocked with deadline 300 loaded, the only writer is blocked on a full window -/
 example : (run (cfgFixed false) (init [.read, .write] 1 1)
-    [.setRD (some 300), .call 0, .thr 0 .go, .thr 0 .go, .thr 0 .tok, .thr 0 .go, .thr 0 .go, .thr 0 .go,
-     .call 1, .thr 1 .go, .thr 1 .go, .thr 1 .go]).map
+    [.setRD (some 300), .call 0 64, .thr 0 .go, .thr 0 .go, .thr 0 .tok, .thr 0 .go, .thr 0 .go, .thr 0 .go,
+     .call 1 64, .thr 1 .go, .thr 1 .go, .thr 1 .go]).map
     (fun s => decide (s.sh.rd = some 300) && (s.ths.map (·.pc) == [.sel, .sel]) &&
       (s.ths.map (·.seen) == [some 300, none]) && quiescent (cfgFixed false) s) = some true := by decide
 
